@@ -16,6 +16,7 @@ EXPLANATION = (
     'Also decided: at most one reply per request and a failed receive leaves handleRequest; the 6-byte prefix is read and validated before the rest of the header; a missing CommunicationError handler in _pyroInvoke is a violation. '
     'Also decided (round 7): A _RemoteMethod (which captures the retry budget) is built per access and returned or called, never stored. '
     'Also decided (round 8): The retry budget is stored exactly as given (0 is a setting); PYRO_* environment settings are stored as converted, not through a truthiness fallback. '
+    'Also decided (round 11): The proxy adopts a new connection only on the CONNECTOK branch of the handshake answer; every name read in client.py / protocol.py is bound somewhere (symbol tables). '
     "Also decided (round 10): The retry loop of _RemoteMethod only ever re-invokes Proxy._pyroInvoke (never a sender that consumes its input, like BatchProxy._pyroInvoke); a stream item is answered with what this call's next() produced (shared from C10). "
     "Not decided: execution counts under fault scripts, what the transport delivers."
 )
